@@ -185,6 +185,23 @@ def run_unit(unit, mode, outdir, extra=()):
     path = os.path.join(outdir, fname)
     with open(path, 'w') as f:
         f.write(text)
+    # Memo of ACCEPTED verifier runs, keyed by the sha256 of the complete generated text (prelude + annotations + the functions
+    # just extracted from the working tree) and the verifier binary: several properties share units, and an identical input text
+    # has the same verification conditions. Extraction always runs; failures are never memoized.
+    ckey = hashlib.sha256((text + '\0' + _verus_id()).encode()).hexdigest()
+    cdir = os.path.join(BUILD, 'vx-cache')
+    cfile = os.path.join(cdir, ckey + '.json')
+    if not extra and os.environ.get('VERIF_VX_NOCACHE') != '1' and os.path.exists(cfile):
+        try:
+            r = json.load(open(cfile))
+            r['memoized'] = 'verifier run on a byte-identical generated file earlier in this build directory (sha256 %s)' % ckey[:16]
+            r['wall_s'] = round(time.time() - t0, 2)
+            r['generated'] = path
+            r['functions'] = gen.functions
+            r['log'] = gen.log
+            return r
+        except Exception:
+            pass
     js, diags, raw, wall, cmd = run_verus(path, extra=extra)
     if raw == 'timeout' and js is None and diags is None:
         r = {'unit': unit, 'mode': mode, 'status': 'inconclusive', 'failures': [], 'tool_errors': ['verus timeout'],
@@ -217,7 +234,29 @@ def run_unit(unit, mode, outdir, extra=()):
     r['generated'] = path
     r['sha256'] = hashlib.sha256(text.encode()).hexdigest()
     r['assumption_scan'] = scan_assumptions(text)
+    if r['status'] == 'ok' and not extra and not r.get('seed_retries'):
+        try:
+            os.makedirs(cdir, exist_ok=True)
+            with open(cfile + '.tmp%d' % os.getpid(), 'w') as fh:
+                json.dump({k: v for k, v in r.items() if k not in ('functions', 'log')}, fh)
+            os.replace(cfile + '.tmp%d' % os.getpid(), cfile)
+        except Exception:
+            pass
     return r
+
+
+_VID = []
+
+
+def _verus_id():
+    if not _VID:
+        try:
+            p = shutil.which('verus') or 'verus'
+            st = os.stat(os.path.realpath(p))
+            _VID.append('%s:%d:%d' % (os.path.realpath(p), st.st_size, int(st.st_mtime)))
+        except Exception:
+            _VID.append('verus')
+    return _VID[0]
 
 
 ASSUME_RE = re.compile(r'\b(assume\s*\(|admit\s*\(|external_body|assume_specification|verifier::external\b|exec_allows_no_decreases_clause)')
@@ -244,7 +283,7 @@ BOUNDED = [
     # name, properties, quick arg, thorough arg, stands in for
     ('partition', ['C04'], 'partition:16384', 'partition:1048576',
      'assumed contracts of PrimeFactors::has_factors_leq / has_factors_gt / product_above (iterator one-liners) and the pinned primitives inside the verified partition_factors (iter().all, derived clone, first_mut); cross-check of partition_factors itself; bound: all n below the limit plus structured prime-power products below 2^40'),
-    ('plan_scalar', ['C04', 'C05', 'C10'], 'plan_scalar:1024', 'plan_scalar:12288',
+    ('plan_scalar', ['C04', 'C05', 'C10', 'C13', 'C14'], 'plan_scalar:1024', 'plan_scalar:12288',
      'assumed constructor contracts of the 20 butterflies and pinned iterator one-liners of the planner, end to end through FftPlannerScalar<f64>::plan_fft (both directions, fresh planner): no panic, len, direction, scratch <= 12n+64; bound: all n below the limit plus structured lengths below 2^18'),
     ('opcount', ['C05'], 'opcount:600,0,0', 'opcount:3000,524288,10',
      'operation-count clause of C05 (not decided by any contract): an instrumented element type counts every +, -, * of one chunk of the real FftPlannerScalar transform (in-place and immutable-input entry points) against 64 n log2 n: every n below the first limit; thorough: additionally the 10 lengths below 2^19 whose REAL recipe (read through the verif_design hook, no twiddles built) has the highest estimated cost ratio - the verdict is always the measured count'),
@@ -256,13 +295,13 @@ BOUNDED = [
      'the 15 helper functions of array_utils/fft_helper/common against the executable reading of their contracts: all data/output lengths <= 12 (zip: <= 8), chunk sizes <= 5, scratch <= 3 (exhaustive in that box); up to 12 chunks'),
     ('chunks', ['C07', 'C12'], 'chunks:96', 'chunks:700',
      'C07 on real transforms (21 butterflies, Dft, every FftPlannerScalar<f64> length below the limit): a k-chunk call (k <= 6) equals k single-chunk calls bit for bit on the three explicit-scratch entry points'),
-    ('simd_sse', ['C01', 'C03', 'C04', 'C07', 'C09', 'C15'], 'simd_sse:260', 'simd_sse:1100',
+    ('simd_sse', ['C01', 'C03', 'C04', 'C07', 'C09', 'C13', 'C15'], 'simd_sse:260', 'simd_sse:1100',
      'SIMD kernels are outside both verifiers: FftPlannerSse<f32|f64> on this CPU, every length below the limit: plans without panic, len/direction/scratch<=12n+64; through the three explicit-scratch entry points with canary-guarded buffers: 1..5 chunks and ill-shaped variants, canaries and immutable input intact, ill-shaped panics, every chunk equals the portable (scalar planner) transform of that chunk up to rounding (2e-4 f32 / 1e-11 f64 relative L2)', 'avx,sse'),
-    ('simd_avx', ['C01', 'C03', 'C04', 'C07', 'C09', 'C15'], 'simd_avx:336', 'simd_avx:1100',
+    ('simd_avx', ['C01', 'C03', 'C04', 'C07', 'C09', 'C13', 'C15'], 'simd_avx:336', 'simd_avx:1100',
      'same for FftPlannerAvx<f32|f64> (this CPU: avx2+fma)', 'avx,sse'),
-    ('simd_history', ['C06', 'C10'], 'simd_history:1', 'simd_history:1000',
+    ('simd_history', ['C04', 'C06', 'C10'], 'simd_history:1', 'simd_history:1000',
      'history on one AVX / SSE planner: every ordered pair of requests over 11 (thorough 18) related lengths x 2 directions: len, direction, result equals the portable transform up to rounding', 'avx,sse'),
-    ('dft_scalar', ['C01', 'C06', 'C12'], 'dft_scalar:400+', 'dft_scalar:2500+',
+    ('dft_scalar', ['C01', 'C06', 'C12', 'C14'], 'dft_scalar:400+', 'dft_scalar:2500+',
      'floating-point algebra is outside both verifiers: FftPlannerScalar<f64> against the DFT definition through all four entry points (NaN-filled exact scratch and output): unit impulses and two-impulse sums for every n below the limit and structured lengths up to 16384 (thorough: up to 131072 incl. Bluestein/Rader primes above 65536), dense vector vs naive sum for n <= 256'),
     ('sqrt_limit', ['C04'], 'sqrt_limit', 'sqrt_limit', 'A-sqrt: ((m*m) as f32).sqrt() as usize >= m for every m < 2^24 on this CPU (exhaustive)'),
     ('MixedRadix', ['C08', 'C09', 'C12'], 'MixedRadix', 'MixedRadix', 'scratch-content independence (C08 iii) and panic-freedom of the real wrapper over contract-checking stubs; bound: inner lengths <= 4, inner scratch needs in {0,1,len-1,len,len+1,2len+3,3len^2+1}'),
@@ -461,7 +500,7 @@ def check(prop, tier, seed):
             'trusted_base': TRUSTED_BASE,
             'samples': samples[:60] or ['(none)'],
             'obligation_unit': 'Verus: one obligation = one function-level verification condition set (all requires at call sites, ensures, invariants, index/overflow/assert sites of that function); Kani: one harness',
-            'verus_units': [{k: r.get(k) for k in ('unit', 'mode', 'status', 'obligations', 'discharged', 'clauses', 'smt_ms', 'wall_s', 'rules', 'sha256', 'tool_errors')} for r in results],
+            'verus_units': [{k: r.get(k) for k in ('unit', 'mode', 'status', 'obligations', 'discharged', 'clauses', 'smt_ms', 'wall_s', 'rules', 'sha256', 'tool_errors', 'memoized')} for r in results],
             'kani_harnesses': [{k: v for k, v in kr.items() if k not in ('failures',)} for kr in kani_results],
             'probes': probe_results,
             'bounded_checks_not_counted_as_proved': [{k: v for k, v in b.items() if k != 'failure'} for b in bounded_results],
